@@ -48,7 +48,10 @@ def _to_regex(value):
         return re.compile(value)
 
 
-_string_prefix = r"'(?:\\.|[^'])*"
+# The alternatives inside the repetition must not overlap: with r"(?:\\.|[^'])*" a run
+# of backslashes can be split in exponentially many ways, all of which are tried
+# when no closing quote follows.
+_string_prefix = r"'(?:[^'\\]|\\.)*\\?"
 _identifier_character = r"(?:[a-zA-Z\-_]|\\.)"
 
 tokenise = regex_tokeniser([
